@@ -282,7 +282,10 @@ pub fn minimise(scn: &Scenario, plan: &J, sched_seed: u64, class: &str, budget_s
     let mut final_plan = best.clone();
     let mut final_seed = best_seed;
     let base_p = best.get("sim").map_or(50_000, |s| s.get("p_ppm").map_or(50_000, J::u));
-    let sticky = best.get("sim").map_or("", |s| s.gs("strategy")) == "sticky";
+    // a plan with upper bounds on elapsed time keeps its (fair) strategy: a stickier schedule would
+    // turn the failure into one the simulator causes by starving a runnable thread
+    let timing = best.get("sim").is_some_and(|s| s.get("timing").is_some_and(J::b));
+    let sticky = !timing && best.get("sim").map_or("", |s| s.gs("strategy")) == "sticky";
     let mut cands: Vec<(J, u64)> = vec![(best.clone(), best_seed)];
     if sticky {
         for div in [2u64, 4, 10, 30] {
